@@ -4,6 +4,7 @@ package sim
 // replay files, known findings, evidence.
 
 import (
+	"context"
 	"encoding/json"
 	"fmt"
 	"os"
@@ -319,6 +320,94 @@ func hasClass(res *RunResult, prop, rule, key string) *Violation {
 
 // Shrink: delta-debugging over blocks, txs, keeper ops and faults while the
 // same violation class (property, rule, key) persists.
+// ShrinkTrying, when set, is called before every candidate execution with the best schedule found so far.
+var ShrinkTrying func(best *Schedule, tries int)
+
+// ShrinkJob / ShrinkOut: minimisation runs in a child process (verifsim shrink), because a candidate
+// schedule may make the application panic on BaseApp's optimistic-execution goroutine, which kills the
+// process; the parent keeps whatever the child had reached.
+type ShrinkJob struct {
+	Schedule            *Schedule
+	Opts                ExecOpts
+	Property, Rule, Key string
+	BudgetMs            int64
+}
+
+type ShrinkOut struct {
+	Schedule  *Schedule
+	Tries     int
+	TraceHash string
+	Detail    string
+	Done      bool
+}
+
+func RunShrinkJob(in, out string) error {
+	b, err := os.ReadFile(in)
+	if err != nil {
+		return err
+	}
+	var j ShrinkJob
+	if err := json.Unmarshal(b, &j); err != nil {
+		return err
+	}
+	write := func(o ShrinkOut) {
+		if bb, err := json.Marshal(o); err == nil {
+			tmp := out + ".tmp"
+			if os.WriteFile(tmp, bb, 0o644) == nil {
+				_ = os.Rename(tmp, out)
+			}
+		}
+	}
+	ShrinkTrying = func(best *Schedule, tries int) { write(ShrinkOut{Schedule: best, Tries: tries}) }
+	sh, tries := Shrink(j.Schedule, j.Opts, j.Property, j.Rule, j.Key, time.Duration(j.BudgetMs)*time.Millisecond)
+	write(ShrinkOut{Schedule: sh, Tries: tries})
+	ro := j.Opts
+	ro.EnumAll = ro.BankFailEnum
+	r := Execute(sh, ro)
+	o := ShrinkOut{Schedule: sh, Tries: tries, TraceHash: r.TraceHash, Done: true}
+	if v := hasClass(r, j.Property, j.Rule, j.Key); v != nil {
+		o.Detail = v.Detail
+	}
+	write(o)
+	return nil
+}
+
+// shrinkInChild minimises in a child process; if the child dies, the best schedule it had reached is used.
+func shrinkInChild(f FoundViolation, opts ExecOpts, budget time.Duration) (sh *Schedule, tries int, traceHash, detail, note string) {
+	sh, detail = f.Schedule, f.V.Detail
+	self, err := os.Executable()
+	if err != nil {
+		return sh, 0, "", detail, "not minimised: " + err.Error()
+	}
+	dir, err := os.MkdirTemp("", "verif-shrink-")
+	if err != nil {
+		return sh, 0, "", detail, "not minimised: " + err.Error()
+	}
+	defer os.RemoveAll(dir)
+	in, out := filepath.Join(dir, "job.json"), filepath.Join(dir, "out.json")
+	jb, _ := json.Marshal(ShrinkJob{Schedule: f.Schedule, Opts: opts, Property: f.V.Property, Rule: f.V.Rule, Key: f.V.Key, BudgetMs: budget.Milliseconds()})
+	if err := os.WriteFile(in, jb, 0o644); err != nil {
+		return sh, 0, "", detail, "not minimised: " + err.Error()
+	}
+	ctx, cancel := context.WithTimeout(context.Background(), budget+90*time.Second)
+	defer cancel()
+	cmd := exec.CommandContext(ctx, self, "shrink", "--in", in, "--out", out)
+	cmd.Stdout, cmd.Stderr = nil, nil
+	runErr := cmd.Run()
+	var o ShrinkOut
+	if b, err := os.ReadFile(out); err == nil && json.Unmarshal(b, &o) == nil && o.Schedule != nil {
+		sh, tries, traceHash = o.Schedule, o.Tries, o.TraceHash
+		if o.Detail != "" {
+			detail = o.Detail
+		}
+		if !o.Done {
+			note = fmt.Sprintf("minimisation stopped early (a candidate schedule killed the minimising process: %v)", runErr)
+		}
+		return
+	}
+	return sh, 0, "", detail, fmt.Sprintf("not minimised (the minimising process failed: %v)", runErr)
+}
+
 func Shrink(s *Schedule, opts ExecOpts, prop, rule, key string, budget time.Duration) (*Schedule, int) {
 	start := time.Now()
 	if opts.BankFailEnum {
@@ -328,6 +417,9 @@ func Shrink(s *Schedule, opts ExecOpts, prop, rule, key string, budget time.Dura
 	tries := 0
 	still := func(c *Schedule) bool {
 		tries++
+		if ShrinkTrying != nil {
+			ShrinkTrying(cur, tries) // persist the best schedule so far: the candidate may kill this process
+		}
 		r := Execute(c, opts)
 		return r.HarnessErr == "" && hasClass(r, prop, rule, key) != nil
 	}
@@ -727,21 +819,21 @@ func reportAndEvidence(spec CheckSpec, tier string, seed int64, verifDir string,
 			var sh *Schedule
 			var tries int
 			var r *RunResult
+			shrinkNote := ""
 			detail := f.V.Detail
 			if f.V.Rule == "process.crash" {
 				// executing it in this process would kill the check itself; the replay command runs it in a child process
 				sh, r = f.Schedule, &RunResult{}
 			} else {
-				sh, tries = Shrink(f.Schedule, spec.Opts, f.V.Property, f.V.Rule, f.V.Key, budget)
-				ro := spec.Opts
-				ro.EnumAll = ro.BankFailEnum
-				r = Execute(sh, ro)
-				if v := hasClass(r, f.V.Property, f.V.Rule, f.V.Key); v != nil {
-					detail = v.Detail
+				var th, note string
+				sh, tries, th, detail, note = shrinkInChild(f, spec.Opts, budget)
+				r = &RunResult{TraceHash: th}
+				if note != "" {
+					shrinkNote = "; " + note
 				}
 			}
 			rf := &ReplayFile{Property: f.V.Property, Rule: f.V.Rule, Key: f.V.Key, Detail: detail, Seed: f.Seed, Profile: f.Profile,
-				TraceHash: r.TraceHash, Opts: spec.Opts, Shrunk: fmt.Sprintf("%d -> %d blocks in %d executions", len(f.Schedule.Blocks), len(sh.Blocks), tries), Schedule: sh}
+				TraceHash: r.TraceHash, Opts: spec.Opts, Shrunk: fmt.Sprintf("%d -> %d blocks in %d executions%s", len(f.Schedule.Blocks), len(sh.Blocks), tries, shrinkNote), Schedule: sh}
 			path, _ = WriteReplay(filepath.Join(verifDir, "replays"), rf)
 			fmt.Printf("violation detail: %s\n", detail)
 		}
